@@ -59,3 +59,71 @@ make_partitions = FunctionContract(
 )
 CONTRACTS = [make_partitions]
 LEMMAS = []
+
+
+# ------------------------------------------------------------------ partition_to_color: the colour of an item is its cell
+partition_to_color = FunctionContract(
+    F, 'partition_to_color', 'C06', spec_env=dict(Item=Item),
+    setup=lambda cx: dict(partitions=cx.val('partitions', TSeq(TSeq(Item)))),
+    locals=dict(colors=TMap(Item, TInt), g_i=TMap(Item, TInt)), result_ty=TMap(Item, TInt),
+    # the cells are disjoint (what make_partitions delivers)
+    requires=["forall(lambda c, d, i, j: implies(0 <= c and c < len(partitions) and 0 <= d and d < len(partitions) and 0 <= i and "
+              "   i < len(partitions[c]) and 0 <= j and j < len(partitions[d]) and partitions[c][i] == partitions[d][j], c == d))"],
+    ensures=[
+        "forall(lambda c, i: implies(0 <= c and c < len(partitions) and 0 <= i and i < len(partitions[c]), "
+        "   partitions[c][i] in result and result[partitions[c][i]] == c))",
+        "forall(lambda x: implies(x in result, 0 <= result[x] and result[x] < len(partitions) and 0 <= g_i[x] and "
+        "   g_i[x] < len(partitions[result[x]]) and partitions[result[x]][g_i[x]] == x), Item)",
+    ],
+    ghost_at={'entry': "g_i = {}"},
+    loops={
+        'L1': LoopSpec(inv=["forall(lambda c, i: implies(0 <= c and c < _i and 0 <= i and i < len(partitions[c]), "
+                            "   partitions[c][i] in colors and colors[partitions[c][i]] == c))",
+                            "forall(lambda x: implies(x in colors, 0 <= colors[x] and colors[x] < _i and 0 <= g_i[x] and "
+                            "   g_i[x] < len(partitions[colors[x]]) and partitions[colors[x]][g_i[x]] == x), Item)"],
+                       modifies=['colors', 'g_i'], locals=dict(colors=TMap(Item, TInt), g_i=TMap(Item, TInt))),
+        'L1.1': LoopSpec(inv=["forall(lambda c, i: implies(0 <= c and c < _iL1 and 0 <= i and i < len(partitions[c]), "
+                              "   partitions[c][i] in colors and colors[partitions[c][i]] == c))",
+                              "forall(lambda i: implies(0 <= i and i < _i, partitions[_iL1][i] in colors and colors[partitions[_iL1][i]] == _iL1))",
+                              "forall(lambda x: implies(x in colors, 0 <= colors[x] and colors[x] <= _iL1 and 0 <= g_i[x] and "
+                              "   g_i[x] < len(partitions[colors[x]]) and partitions[colors[x]][g_i[x]] == x and "
+                              "   implies(colors[x] == _iL1, g_i[x] < _i)), Item)"],
+                         modifies=['colors', 'g_i'], locals=dict(colors=TMap(Item, TInt), g_i=TMap(Item, TInt)),
+                         ghost_end="g_i[key] = _i"),
+    },
+    canary=[("colors[key] = color", "colors[key] = 0")],
+)
+CONTRACTS.append(partition_to_color)
+
+
+# ------------------------------------------------------------------ ISMAGS._make_constraints: cosets -> ordering constraints
+PairI = TTuple(Item, Item)
+make_constraints = FunctionContract(
+    F, 'ISMAGS._make_constraints', 'C06', spec_env=dict(Item=Item),
+    setup=lambda cx: dict(cosets=cx.val('cosets', TMap(Item, TSeq(Item)))),
+    locals=dict(constraints=TSet(PairI), g_j=TMap(PairI, TInt)), result_ty=TSet(PairI),
+    ensures=[
+        # exactly the pairs (i, t) with t in the coset of i and t != i
+        "forall(lambda a, b: ((a, b) in result) == (a in cosets and a != b and "
+        "   exists(lambda j: 0 <= j and j < len(cosets[a]) and cosets[a][j] == b)), Item, Item)",
+    ],
+    ghost_at={'entry': "g_j = {}"},
+    loops={
+        'L1': LoopSpec(inv=["forall(lambda a, b: implies((a, b) in constraints, a in cosets and posof(cosets, a) < _i and a != b and "
+                            "   0 <= g_j[(a, b)] and g_j[(a, b)] < len(cosets[a]) and cosets[a][g_j[(a, b)]] == b), Item, Item)",
+                            "forall(lambda a, j: implies(a in cosets and posof(cosets, a) < _i and 0 <= j and j < len(cosets[a]) and "
+                            "   cosets[a][j] != a, (a, cosets[a][j]) in constraints), Item, TInt)"],
+                       modifies=['constraints', 'g_j'], locals=dict(constraints=TSet(PairI), g_j=TMap(PairI, TInt))),
+        'L1.1': LoopSpec(inv=["forall(lambda a, b: implies((a, b) in constraints, a in cosets and posof(cosets, a) <= _iL1 and a != b and "
+                              "   0 <= g_j[(a, b)] and g_j[(a, b)] < len(cosets[a]) and cosets[a][g_j[(a, b)]] == b and "
+                              "   implies(posof(cosets, a) == _iL1, g_j[(a, b)] < _i)), Item, Item)",
+                              "forall(lambda a, j: implies(a in cosets and posof(cosets, a) < _iL1 and 0 <= j and j < len(cosets[a]) and "
+                              "   cosets[a][j] != a, (a, cosets[a][j]) in constraints), Item, TInt)",
+                              "forall(lambda j: implies(0 <= j and j < _i and node_ts[j] != node_i, (node_i, node_ts[j]) in constraints))",
+                              "node_i in cosets and posof(cosets, node_i) == _iL1 and keyat(cosets, _iL1) == node_i"],
+                         modifies=['constraints', 'g_j'], locals=dict(constraints=TSet(PairI), g_j=TMap(PairI, TInt)),
+                         ghost_end="if node_i != node_t:\n    g_j[(node_i, node_t)] = _i"),
+    },
+    canary=[("if node_i != node_t:", "if True:"), ("constraints.add((node_i, node_t))", "constraints.add((node_t, node_i))")],
+)
+CONTRACTS.append(make_constraints)
